@@ -428,6 +428,8 @@ Definition sb_pure_names : list sb_name := Eval vm_compute in
    "Icinga#get_event_command"; "Icinga#get_notification_command"; "Icinga#get_host_group";
    "Icinga#get_service_group"; "Icinga#get_user_group"; "Icinga#get_time_period"]%string.
 
+Definition sb_n_ref_get := Eval vm_compute in sb_enc "Reference#get"%string.
+
 (* the analysis established: no use in the body can modify pre-existing state *)
 Definition sb_native_pure (F : sb_facts) (n : sb_name) : bool := sb_lookupb n (sbf_purity F).
 (* the body invokes a Function argument (sort/map/reduce/filter/any/all today) *)
@@ -701,7 +703,14 @@ Section SbStep.
     | SbNative nm =>
         sb_log_call nm (sb_fun_safe F f) ;;;
         match sb_class_of F nm with
-        | SbPure => c <- sb_choose ;; if sbc_b c then sb_fail SbEOther else sb_ret (sbc_v c)
+        | SbPure =>
+            (* Reference#get is Reference::Get: m_Parent->GetFieldByName(m_Index, true, ..) - the same checked read as `*ref` *)
+            match self with
+            | SbVRef ty o idx =>
+                if nm =? sb_n_ref_get then sb_getfield F (sbf_ref_get_checked F) (SbVObj ty o) idx
+                else c <- sb_choose ;; if sbc_b c then sb_fail SbEOther else sb_ret (sbc_v c)
+            | _ => c <- sb_choose ;; if sbc_b c then sb_fail SbEOther else sb_ret (sbc_v c)
+            end
         | SbRevealing => sb_log_read (SbRdField 0 0) ;;; c <- sb_choose ;; sb_ret (sbc_v c)
         | SbMutating =>
             sb_clobber (self :: args) ;;;
@@ -776,18 +785,13 @@ Definition sb_purity_as_expected (F : sb_facts) : bool :=
   forallb (fun p => negb (snd p) || sb_mem (fst p) sb_pure_names || sb_mem (fst p) sb_higher_names) (sbf_funcs F) &&
   forallb (fun p => negb (snd p) || Bool.eqb (sb_native_higher F (fst p)) (sb_mem (fst p) sb_higher_names)) (sbf_funcs F) &&
   forallb (fun n => negb (sb_lookupb n (sbf_funcs F)) || sb_native_pure F n) (sb_pure_names ++ sb_higher_names).
-(* source-derived cross-check of the classification: [scan] = (name, (body located, body calls a mutator on an object
-   it did not create, or touches files/processes/registries)).  No function registered side-effect-free may have a
-   located dirty body; at least [min_located] of them must have been located (the rest is covered behaviourally). *)
-Definition sb_safe_bodies_clean (F : sb_facts) (scan : list (sb_name * (bool * bool))) (min_located : nat) : bool :=
-  forallb (fun p => negb (snd p) ||
-                    match sb_assoc (fst p) scan with Some (true, dirty) => negb dirty | _ => true end) (sbf_funcs F) &&
-  Nat.leb min_located
-    (List.length (filter (fun p => snd p && match sb_assoc (fst p) scan with Some (true, _) => true | _ => false end)
-                         (sbf_funcs F))).
-(* ... and the same scan flags every builtin the model classifies as mutating its receiver (sanity of the scan) *)
-Definition sb_scan_sees_mutators (scan : list (sb_name * (bool * bool))) (names : list sb_name) : bool :=
-  forallb (fun n => match sb_assoc n scan with Some (true, true) => true | _ => false end) names.
+(* sanity of the mutation-capability analysis: it locates and FLAGS every builtin known to mutate its receiver;
+   [raw] = (name, (every definition located, no problem found)) *)
+Definition sb_analysis_sees_mutators (raw : list (sb_name * (bool * bool))) (names : list sb_name) : bool :=
+  forallb (fun n => match sb_assoc n raw with Some (true, false) => true | _ => false end) names.
+(* ... and locates every function registered side-effect-free *)
+Definition sb_safe_bodies_located (F : sb_facts) (raw : list (sb_name * (bool * bool))) : bool :=
+  forallb (fun p => negb (snd p) || match sb_assoc (fst p) raw with Some (true, _) => true | _ => false end) (sbf_funcs F).
 Definition sb_container_mutators : list sb_name := Eval vm_compute in
   map sb_enc ["Array#add"; "Array#set"; "Array#remove"; "Array#clear"; "Array#freeze"; "Dictionary#set";
               "Dictionary#remove"; "Dictionary#clear"; "Dictionary#freeze"; "Namespace#set"; "Namespace#remove";
